@@ -97,6 +97,23 @@ func init() {
 			{Name: "rewrite: PopMatchingPeer looks both indices up first, then validates each side", Edits: []Edit{
 				{File: "internal/agent/relay_table.go", Old: "\tif up := r.byUpstream[streamID]; up != nil && up.UpstreamPeer == peer {\n\t\tdelete(r.byUpstream, up.UpstreamID)\n\t\tdelete(r.byDownstream, up.DownstreamID)\n\t\treturn up, true\n\t}\n\tif down := r.byDownstream[streamID]; down != nil && down.DownstreamPeer == peer {\n\t\tdelete(r.byUpstream, down.UpstreamID)\n\t\tdelete(r.byDownstream, down.DownstreamID)\n\t\treturn down, false\n\t}\n\treturn nil, false\n", New: "\tup, down := r.byUpstream[streamID], r.byDownstream[streamID]\n\tswitch {\n\tcase up != nil && peer == up.UpstreamPeer:\n\t\tentry, fromUpstream = up, true\n\tcase down != nil && peer == down.DownstreamPeer:\n\t\tentry = down\n\tdefault:\n\t\treturn nil, false\n\t}\n\tdelete(r.byDownstream, entry.DownstreamID)\n\tdelete(r.byUpstream, entry.UpstreamID)\n\treturn entry, fromUpstream\n"},
 			}},
+			{Name: "rewrite: close handlers pop through a shared helper that takes the table", Edits: []Edit{
+				{File: "internal/agent/udp.go", Old: "if entry, fromUpstream := a.udpRelay.PopMatchingPeer(frame.StreamID, peerID); entry != nil {", New: "if entry, fromUpstream := a.popRelay(a.udpRelay, frame.StreamID, peerID); entry != nil {"},
+				{File: "internal/agent/udp.go", Old: "// sendUDPOpenErr is a helper to send a UDP_OPEN_ERR frame.", New: "func (a *Agent) popRelay(table *relayTable, id uint64, peer identity.AgentID) (*relayEntry, bool) {\n\treturn table.PopMatchingPeer(id, peer)\n}\n\n// sendUDPOpenErr is a helper to send a UDP_OPEN_ERR frame."},
+			}},
+			{Name: "rewrite: relay registration and failure cleanup through helpers taking the table", Edits: []Edit{
+				{File: "internal/agent/icmp.go", Old: "\ta.icmpRelay.Insert(relay)\n", New: "\ta.trackRelay(a.icmpRelay, relay)\n"},
+				{File: "internal/agent/icmp.go", Old: "\t\ta.icmpRelay.Delete(relay)\n", New: "\t\ta.untrackRelay(a.icmpRelay, relay)\n"},
+				{File: "internal/agent/icmp.go", Old: "// handleICMPOpenAck processes", New: "func (a *Agent) trackRelay(table *relayTable, e *relayEntry) { table.Insert(e) }\n\nfunc (a *Agent) untrackRelay(table *relayTable, e *relayEntry) { table.Delete(e) }\n\n// handleICMPOpenAck processes"},
+			}},
+			{Name: "rewrite: DeleteByPeer predicate extracted, condition inverted with continue", Edits: []Edit{
+				{File: "internal/agent/relay_table.go", Old: "\t\tif e.UpstreamPeer == peer || e.DownstreamPeer == peer {\n\t\t\tdelete(r.byUpstream, id)\n\t\t\tdelete(r.byDownstream, e.DownstreamID)\n\t\t\tn++\n\t\t}\n", New: "\t\tif !e.touchesPeer(peer) {\n\t\t\tcontinue\n\t\t}\n\t\tdelete(r.byUpstream, id)\n\t\tdelete(r.byDownstream, e.DownstreamID)\n\t\tn++\n"},
+				{File: "internal/agent/relay_table.go", Old: "// relayTable is a thread-safe bidirectional index", New: "func (e *relayEntry) touchesPeer(p identity.AgentID) bool {\n\treturn e.UpstreamPeer == p || e.DownstreamPeer == p\n}\n\n// relayTable is a thread-safe bidirectional index"},
+			}},
+			{Name: "rewrite: exit connection registered through a trackConnection helper", Edits: []Edit{
+				{File: "internal/exit/handler.go", Old: "\th.mu.Lock()\n\th.connections[streamID] = ac\n\th.connCount.Add(1)\n\th.mu.Unlock()\n", New: "\th.trackConnection(ac)\n"},
+				{File: "internal/exit/handler.go", Old: "// HandleStreamData processes incoming stream data.", New: "func (h *Handler) trackConnection(ac *ActiveConnection) {\n\th.mu.Lock()\n\tdefer h.mu.Unlock()\n\th.connections[ac.StreamID] = ac\n\th.connCount.Add(1)\n}\n\n// HandleStreamData processes incoming stream data."},
+			}},
 			{Name: "rewrite: disconnect cleanup loops over the relay tables", Edits: []Edit{
 				{File: "internal/agent/agent.go", Old: "\t// Clean up relay streams involving this peer\n\ta.cleanupRelaysForPeer(peerID)\n", New: "\tfor _, tab := range []*relayTable{a.tcpRelay, a.udpRelay, a.icmpRelay} {\n\t\ttab.DeleteByPeer(peerID)\n\t}\n"},
 			}},
@@ -873,7 +890,24 @@ func c17R3(p *kit.Program, r *kit.Report, cx *c16Ctx, rt, agent *types.Named) {
 			}
 		}
 		compared := map[*types.Var]bool{}
+		// the remover itself plus the small helpers it calls (predicate methods such as
+		// entry.touchesPeer(peer)), two levels
+		scope := map[*ssa.Function]bool{}
 		for _, f := range kit.WithClosures(m) {
+			scope[f] = true
+		}
+		for round := 0; round < 2; round++ {
+			for f := range scope {
+				for _, c := range kit.Calls(f) {
+					if cal := kit.CalleeOf(c); cal.Static != nil && cal.Static.Blocks != nil && kit.IsRepoPkg(kit.FuncPkgPath(cal.Static)) {
+						for _, g := range kit.WithClosures(cal.Static) {
+							scope[g] = true
+						}
+					}
+				}
+			}
+		}
+		for f := range scope {
 			kit.Instrs(f, func(in ssa.Instruction) {
 				var a, b ssa.Value
 				switch x := in.(type) {
@@ -932,11 +966,31 @@ func c17R3(p *kit.Program, r *kit.Report, cx *c16Ctx, rt, agent *types.Named) {
 				records = true
 			}
 		}
+		// created on behalf of a received frame and recording its sender: somewhere an entry of
+		// this type is built with an AgentID field set to the sending-peer parameter of a
+		// frame-driven function (wherever the insertion itself was moved to)
 		frameCreated := false
-		for _, acc := range p.FieldAccessesOfKind(ev.Field, kit.MapInsert) {
-			if cx.hasPeer(acc.Fn) {
-				frameCreated = true
+		for _, fn := range p.RepoFuncs() {
+			if frameCreated || !cx.frameDriven[fn] {
+				continue
 			}
+			kit.Instrs(fn, func(in ssa.Instruction) {
+				a, isAlloc := in.(*ssa.Alloc)
+				if !isAlloc || !types.Identical(a.Type(), elem) {
+					return
+				}
+				for _, rf := range *a.Referrers() {
+					fa, isFA := rf.(*ssa.FieldAddr)
+					if !isFA || !c16IsAgentID(kit.FieldOfAddr(fa).Type()) {
+						continue
+					}
+					for _, rf2 := range *fa.Referrers() {
+						if st, isSt := rf2.(*ssa.Store); isSt && st.Addr == fa && cx.peerValue(st.Val) {
+							frameCreated = true
+						}
+					}
+				}
+			})
 		}
 		if !records || !frameCreated {
 			continue
@@ -1005,23 +1059,74 @@ func c17R4(p *kit.Program, r *kit.Report, rt, agent *types.Named) {
 		}
 		return nil
 	}
+	// insertWrappers: a function whose body calls the inserting method with one of its own
+	// parameters as the table and another as the entry → (table parameter index, entry index)
+	insertWrappers := func(g *ssa.Function) (int, int, bool) {
+		if g == nil || g.Blocks == nil || !kit.IsRepoPkg(kit.FuncPkgPath(g)) {
+			return 0, 0, false
+		}
+		idxOf := func(v ssa.Value) int {
+			for i, pa := range g.Params {
+				if ssa.Value(pa) == v {
+					return i
+				}
+			}
+			return -1
+		}
+		for _, c := range kit.Calls(g) {
+			if cal := kit.CalleeOf(c); cal.Static != nil && inserters[cal.Static] {
+				ti, ei := idxOf(kit.Receiver(c)), idxOf(kit.Arg(c, 0))
+				if ti >= 0 && ei >= 0 {
+					return ti, ei, true
+				}
+			}
+		}
+		return 0, 0, false
+	}
+	// deleteWrappers likewise for the delete-by-entry method
+	deleteWrappers := func(g *ssa.Function) (int, int, bool) {
+		if g == nil || g.Blocks == nil || !kit.IsRepoPkg(kit.FuncPkgPath(g)) {
+			return 0, 0, false
+		}
+		idxOf := func(v ssa.Value) int {
+			for i, pa := range g.Params {
+				if ssa.Value(pa) == v {
+					return i
+				}
+			}
+			return -1
+		}
+		for _, c := range kit.Calls(g) {
+			if cal := kit.CalleeOf(c); cal.Static != nil && deleters[cal.Static] {
+				ti, ei := idxOf(kit.Receiver(c)), idxOf(kit.Arg(c, 0))
+				if ti >= 0 && ei >= 0 {
+					return ti, ei, true
+				}
+			}
+		}
+		return 0, 0, false
+	}
 	// (a) insert … forward fails … delete
 	nSites := 0
-	openTable := map[*ssa.Function]*types.Var{} // open handler → relay field it inserts into
 	for _, fn := range p.FuncsInPkg("internal/agent") {
 		ord := map[string]int{}
 		for _, c := range kit.Calls(fn) {
 			cal := kit.CalleeOf(c)
-			if cal.Static == nil || !inserters[cal.Static] {
+			if cal.Static == nil {
 				continue
 			}
-			tab := relayFieldOf(kit.Receiver(c))
-			if tab == nil {
+			var tab *types.Var
+			var e ssa.Value
+			if inserters[cal.Static] {
+				tab, e = relayFieldOf(kit.Receiver(c)), kit.Arg(c, 0)
+			} else if ti, ei, ok := insertWrappers(cal.Static); ok && ti < len(c.Common().Args) && ei < len(c.Common().Args) {
+				// a helper that inserts its entry argument into its table argument
+				tab, e = relayFieldOf(c.Common().Args[ti]), c.Common().Args[ei]
+			}
+			if tab == nil || e == nil {
 				continue
 			}
 			nSites++
-			openTable[fn] = tab
-			e := kit.Arg(c, 0)
 			key := kit.FuncName(fn) + " " + c17Ord(ord, "insert into "+tab.Name())
 			pos := p.Pos(c.Pos())
 			// error checks of calls made after the insertion
@@ -1058,6 +1163,10 @@ func c17R4(p *kit.Program, r *kit.Report, rt, agent *types.Named) {
 					if cal2.Static != nil && deleters[cal2.Static] && relayFieldOf(kit.Receiver(c2)) == tab && kit.Arg(c2, 0) == e {
 						stop[in2.Block()] = true
 					}
+					if ti, ei, ok := deleteWrappers(cal2.Static); ok && ti < len(c2.Common().Args) && ei < len(c2.Common().Args) &&
+						relayFieldOf(c2.Common().Args[ti]) == tab && c2.Common().Args[ei] == e {
+						stop[in2.Block()] = true
+					}
 				})
 				if stop[errSucc] {
 					return
@@ -1084,23 +1193,42 @@ func c17R4(p *kit.Program, r *kit.Report, rt, agent *types.Named) {
 		}
 	}
 	r.Count("relay_insert_sites", nSites)
-	r.Require(nSites >= 3, "floor: %d relay insertion site(s) in internal/agent (expected TCP, UDP, ICMP open handlers)", nSites)
+	r.Require(nSites >= 1, "floor: no call of the inserting relayTable method on a relay table of Agent found in internal/agent")
 
 	// (b) OPEN_ERR / CLOSE / RESET handlers pop from the family's table
 	disp, arms := c17FrameDispatch(p)
 	if !r.Require(disp != nil, "anchor-unresolved: frame dispatcher (function comparing frame.Type with >= 20 protocol.Frame* constants)") {
 		return
 	}
-	families := map[string]*types.Var{}
+	families := map[string][]*types.Var{}
+	inFamily := map[*types.Var]string{}
 	for name, h := range arms {
-		if strings.HasSuffix(name, "Open") {
-			if tab, ok := openTable[h]; ok {
-				families[strings.TrimSuffix(name, "Open")] = tab
+		if !strings.HasSuffix(name, "Open") {
+			continue
+		}
+		var tabs []*types.Var
+		for f := range c17TablesUsed(h, agent, inserters) {
+			tabs = append(tabs, f)
+		}
+		sort.Slice(tabs, func(i, j int) bool { return tabs[i].Name() < tabs[j].Name() })
+		if len(tabs) > 0 {
+			fam := strings.TrimSuffix(name, "Open")
+			families[fam] = tabs
+			for _, t := range tabs {
+				inFamily[t] = fam
 			}
 		}
 	}
 	r.Count("relay_frame_families", len(families))
-	r.Require(len(families) >= 3, "floor: %d frame families with a relay table found (expected Stream, UDP, ICMP)", len(families))
+	r.Require(len(families) >= 1, "floor: no frame family whose …Open handler inserts into a relay table of Agent found")
+	// every relay table of Agent must belong to a family, otherwise its terminating handlers are not judged
+	for _, f := range kit.StructFields(agent) {
+		if pt, ok := f.Type().(*types.Pointer); ok {
+			if n, ok := pt.Elem().(*types.Named); ok && n.Obj() == rt.Obj() && inFamily[f] == "" {
+				r.Floor("anchor-unresolved: no …Open frame handler is seen inserting into Agent.%s: the family whose close/reset handlers must clean it cannot be determined", f.Name())
+			}
+		}
+	}
 	var names []string
 	for name := range arms {
 		names = append(names, name)
@@ -1114,27 +1242,21 @@ func c17R4(p *kit.Program, r *kit.Report, rt, agent *types.Named) {
 				fam, suffix = strings.TrimSuffix(name, sfx), sfx
 			}
 		}
-		tab, ok := families[fam]
+		tabs, ok := families[fam]
 		if !ok || suffix == "" {
 			continue
 		}
-		nClose++
 		h := arms[name]
-		found := false
-		for _, f := range kit.WithClosures(h) {
-			for _, c := range kit.Calls(f) {
-				cal := kit.CalleeOf(c)
-				if cal.Static != nil && poppers[cal.Static] && relayFieldOf(kit.Receiver(c)) == tab {
-					found = true
-				}
-			}
+		popped := c17TablesUsed(h, agent, poppers)
+		for _, tab := range tabs {
+			nClose++
+			r.Decide(popped[tab], "C17.R4", kit.FuncName(h)+" removes "+tab.Name()+" entry", p.Pos(h.Pos()),
+				"handler of "+name+" calls a peer-checked removing method of "+tab.Name()+" (directly or through the helpers it calls)",
+				"neither the handler of "+name+" nor any helper it calls invokes a peer-checked removing method of "+tab.Name()+": relay entries of finished tunnels are never removed")
 		}
-		r.Decide(found, "C17.R4", kit.FuncName(h)+" removes "+tab.Name()+" entry", p.Pos(h.Pos()),
-			"handler of "+name+" calls a peer-checked removing method of "+tab.Name(),
-			"the handler of "+name+" never calls a peer-checked removing method of "+tab.Name()+": relay entries of finished tunnels are never removed")
 	}
 	r.Count("relay_terminating_frame_handlers", nClose)
-	r.Require(nClose >= 4, "floor: %d OPEN_ERR/CLOSE/RESET handlers of relay families found (expected at least 4)", nClose)
+	r.Require(nClose >= 1, "floor: no OPEN_ERR/CLOSE/RESET handler of a relay family found")
 }
 
 // c17R4Handlers: a record registered in a per-connection table is removed again on every path on
@@ -1158,8 +1280,23 @@ func c17R4Handlers(p *kit.Program, r *kit.Report) {
 			}
 		}
 		ord := map[string]int{}
-		for _, acc := range p.FieldAccessesOfKind(ev.Field, kit.MapInsert) {
-			fn := acc.Fn
+		// registration sites: the insertion itself and, when it sits in a small helper
+		// (trackConnection(ac)), every static call of that helper
+		type regSite struct {
+			fn *ssa.Function
+			in ssa.Instruction
+		}
+		var sites []regSite
+		for _, ia := range p.FieldAccessesOfKind(ev.Field, kit.MapInsert) {
+			sites = append(sites, regSite{ia.Fn, ia.Instr})
+			for _, cs := range p.StaticCallers(kit.TopLevel(ia.Fn)) {
+				if _, isGo := cs.(*ssa.Go); !isGo {
+					sites = append(sites, regSite{cs.Parent(), cs})
+				}
+			}
+		}
+		for _, acc := range sites {
+			fn := acc.fn
 			checked, bad := 0, ""
 			kit.Instrs(fn, func(in ssa.Instruction) {
 				ifi, ok := in.(*ssa.If)
@@ -1171,7 +1308,7 @@ func c17R4Handlers(p *kit.Program, r *kit.Report) {
 					return
 				}
 				src, _, isCall := kit.ResultOf(x)
-				if !isCall || !kit.Precedes(acc.Instr, src) {
+				if !isCall || !kit.Precedes(acc.in, src) {
 					return
 				}
 				checked++
@@ -1218,7 +1355,7 @@ func c17R4Handlers(p *kit.Program, r *kit.Report) {
 				continue // nothing can fail after the registration inside this function
 			}
 			n++
-			r.Decide(bad == "", "C17.R4", kit.FuncName(fn)+" "+c17Ord(ord, "registers in "+ev.Name), p.Pos(acc.Instr.Pos()),
+			r.Decide(bad == "", "C17.R4", kit.FuncName(fn)+" "+c17Ord(ord, "registers in "+ev.Name), p.Pos(acc.in.Pos()),
 				fmt.Sprintf("%d error check(s) after the registration, each failure branch removes the record before returning", checked),
 				bad+": the peer never learned about the tunnel, so nothing will ever close this record (and its connCount share)")
 		}
@@ -1344,6 +1481,92 @@ func c17R4RelaySide(p *kit.Program, r *kit.Report, cx *c16Ctx, rt *types.Named) 
 			"every return without a sender-validated hit comes after all index lookups",
 			bad+": when the number is also registered in the other index for a different connection, the sender's own entry is never found and stays behind")
 	}
+}
+
+// c17TablesUsed answers "on which fields of struct `owner` does code run on behalf of `root` call
+// one of the `targets` methods?". It follows static calls out of root (closures included, three
+// levels, repository functions only) and resolves a receiver that is a parameter through the
+// argument bound at the call site, so a shared helper taking the table as an argument
+// (relayTeardown(a.udpRelay, …)) counts for the field its caller passed.
+func c17TablesUsed(root *ssa.Function, owner *types.Named, targets map[*ssa.Function]bool) map[*types.Var]bool {
+	out := map[*types.Var]bool{}
+	fieldOf := func(v ssa.Value) *types.Var {
+		f, base := kit.LoadedField(v)
+		if f == nil || base == nil {
+			return nil
+		}
+		t := base.Type()
+		if pt, ok := t.(*types.Pointer); ok {
+			t = pt.Elem()
+		}
+		if n, ok := t.(*types.Named); ok && n.Obj() == owner.Obj() {
+			return f
+		}
+		return nil
+	}
+	type env map[*ssa.Parameter][]*types.Var
+	resolve := func(v ssa.Value, e env) []*types.Var {
+		var fs []*types.Var
+		for _, leaf := range kit.PhiLeaves(v) {
+			if pa, ok := leaf.(*ssa.Parameter); ok {
+				fs = append(fs, e[pa]...)
+				continue
+			}
+			if f := fieldOf(leaf); f != nil {
+				fs = append(fs, f)
+				continue
+			}
+			for _, f := range c17FieldsBehind(leaf) {
+				fs = append(fs, f)
+			}
+		}
+		return fs
+	}
+	visited := map[*ssa.Function]int{}
+	var walk func(fn *ssa.Function, e env, depth int)
+	walk = func(fn *ssa.Function, e env, depth int) {
+		if fn == nil || fn.Blocks == nil || depth > 3 {
+			return
+		}
+		if len(e) == 0 {
+			if visited[fn] > 0 {
+				return
+			}
+			visited[fn]++
+		} else if visited[fn] > 8 {
+			return
+		} else {
+			visited[fn]++
+		}
+		for _, f := range kit.WithClosures(fn) {
+			for _, c := range kit.Calls(f) {
+				cal := kit.CalleeOf(c)
+				if cal.Static == nil {
+					continue
+				}
+				if targets[cal.Static] {
+					for _, fld := range resolve(kit.Receiver(c), e) {
+						out[fld] = true
+					}
+					continue
+				}
+				if !kit.IsRepoPkg(kit.FuncPkgPath(cal.Static)) || cal.Static.Blocks == nil {
+					continue
+				}
+				ne := env{}
+				for i, a := range c.Common().Args {
+					if i < len(cal.Static.Params) {
+						if fs := resolve(a, e); len(fs) > 0 {
+							ne[cal.Static.Params[i]] = fs
+						}
+					}
+				}
+				walk(cal.Static, ne, depth+1)
+			}
+		}
+	}
+	walk(root, env{}, 0)
+	return out
 }
 
 // c17FrameDispatch finds the function that compares a frame type with >= 20 protocol.Frame*
